@@ -1,4 +1,5 @@
 import Proofs.C13Spec
+import Proofs.C13Real
 /-!
 C13 — distance kernels are exact for every dtype, memory layout and thread count.
 
@@ -50,6 +51,17 @@ theorem kernel_row_spec_float (xs ys : List Rat) (w : Nat) (init : Cell) :
 
 example : rowResult .euclidean 2 (rowTerms (termRat .euclidean) [3, 1/2] [0, 9/2]) .nan = .sqrt 25 := by
   decide +kernel
+
+/-- what the symbols mean: the rational under `Cell.sqrt` in the row theorems is the squared
+Euclidean distance, so the cell denotes `dist x y = ‖x − y‖₂` in `EuclideanSpace ℝ (Fin w)`;
+`Cell.val (l1Dist …)` denotes `Σ |x_i − y_i| = ‖x − y‖₁`.  FULL. -/
+theorem norms_denoted {w : Nat} (x y : Fin w → ℚ) :
+    Cell.toReal (.sqrt (sqDist (List.ofFn x) (List.ofFn y)))
+      = some (dist ((WithLp.toLp 2 (fun i => (x i : ℝ))) : EuclideanSpace ℝ (Fin w))
+                   (WithLp.toLp 2 (fun i => (y i : ℝ)))) ∧
+    Cell.toReal (.val (l1Dist (List.ofFn x) (List.ofFn y)))
+      = some (∑ i : Fin w, |(x i : ℝ) - (y i : ℝ)|) :=
+  ⟨sqrt_sqDist_eq_dist x y, val_l1Dist_eq x y⟩
 
 /-- int8 / int16 (and uint8 / uint16) rows, UNCONDITIONALLY: differences and squares of
 8/16-bit values fit the promoted `int` / `long`, so the kernels are exact on every input.  FULL. -/
@@ -215,6 +227,16 @@ theorem schedule_is_interleaving {ε} (k : Kernel) (term : ε → ε → Rat) (r
     IsInterleaving (progsOf k term rows ys) (schedule (progsOf k term rows ys) choices) :=
   schedule_isInterleaving _ _
 
+/-- a genuinely interleaved execution (rows alternate) next to the sequential one -/
+example :
+    (schedule (progsOf .manhattan (termRat .manhattan) [[1, 2], [3, 4]] [0, 0]) [1, 0, 1]).map (·.1)
+      = [1, 0, 1, 0, 0, 1] ∧
+    (seqExec (progsOf .manhattan (termRat .manhattan) [[1, 2], [3, 4]] [0, 0])).map (·.1)
+      = [0, 0, 0, 1, 1, 1] := by decide
+
+/-- the position hypotheses hold for a reversed `out` view `buf[2::-2]` of two rows -/
+example : (∀ i, i < 2 → 0 ≤ idx1 2 (-2) i) ∧ ((-2 : Int) ≠ 0 ∨ 2 ≤ 1) := by decide
+
 /-! ## validation -/
 
 /-- `_prepare_for_2d_to_1d_distance` accepts exactly: X of rank 2, y of rank 1, equal width,
@@ -264,6 +286,13 @@ theorem validated_in_bounds {ε} (Xm ym : Meta) (om : Option Meta) (sh : List Na
   · exact read2?_isSome X n w (by rw [hX, hXs]) hXe i j hi hj
   · exact read1?_isSome y w (by rw [hy, hys]) hye j hj
   · exact read1?_isSome out n ho hoe i hi
+
+/-- the hypotheses are satisfiable: a reversed / every-other-column int16 view, a strided `out` -/
+example :
+    prepare ⟨"int16", [2, 2], true⟩ ⟨"int16", [2], true⟩ (some ⟨"float64", [2], true⟩) = .ok [2] ∧
+    (⟨#[1, 0, 4, 0, 7, 0, 5, 0], 4, [2, 2], [-4, 2]⟩ : Arr Int).extentOk = true ∧
+    (⟨#[4, 1], 0, [2], [1]⟩ : Arr Int).extentOk = true ∧
+    (⟨#[.nan, .untracked, .val 7], 2, [2], [-2]⟩ : Arr Cell).extentOk = true := by decide
 
 /-- … and then the kernel runs to completion in the model (never `bad-request`) -/
 theorem validated_runs {ε} (k : Kernel) (term : ε → ε → Rat) (Xm ym : Meta) (om : Option Meta)
